@@ -771,6 +771,25 @@ func checkMain(a map[string]string) int {
 							json.Unmarshal(b, &cf)
 							cm = cf.Case
 						}
+						if v.Class == "process_wedged" {
+							// a wall-clock verdict: only believed if the case also fails to
+							// finish in a process of its own (a loaded machine is not a wedge)
+							confirmed := false
+							if cb, err := json.Marshal(cm); err == nil && cm != nil {
+								if dc, err := eng.Decode(cb); err == nil {
+									if v2, _, _ := isolatedExec(eng, dc, NewStats()); v2 != nil {
+										v, confirmed = v2, true
+									}
+								}
+							}
+							if !confirmed {
+								fmt.Printf("NOTE batch %d overran its wall-clock limit but its current case finishes in a process of its own: not a wedge (machine load); batch not counted\n", bi)
+								mu.Lock()
+								total.Probes["batch_overran_wall_clock_not_reproduced"]++
+								mu.Unlock()
+								continue
+							}
+						}
 						mu.Lock()
 						batches++
 						if firstViol == nil {
@@ -791,7 +810,12 @@ func checkMain(a map[string]string) int {
 						mu.Unlock()
 						return
 					}
-					if br2.Violation == nil {
+					if br2.Violation == nil && v.Class == "process_wedged" {
+						// a wall-clock verdict that no case reproduces in a process of its
+						// own (each with its own time limit): machine load, not a wedge
+						fmt.Printf("NOTE batch %d overran its wall-clock limit but every one of its cases finishes in a process of its own: not a wedge (machine load)\n", bi)
+						br2.Stats.Probes["batch_overran_wall_clock_not_reproduced"]++
+					} else if br2.Violation == nil {
 						// not reproduced in isolation: report the original crash with the unminimised case
 						br2.Violation = v
 						var cm map[string]interface{}
